@@ -402,7 +402,14 @@ func (w *Worker) runCase(c *Case, f func(c *Case)) {
 		c.mu.Lock()
 		desc := c.desc
 		c.mu.Unlock()
-		w.Inconclusive(fmt.Sprintf("case %s#%d exceeded %v without a deadlocked dump: %s", c.Group, c.Index, to, desc))
+		if f := os.Getenv("VERIF_HANGDUMP"); f != "" {
+			os.WriteFile(fmt.Sprintf("%s.%d", f, os.Getpid()), []byte(d2), 0o644)
+		}
+		act := ActiveGoroutines()
+		if len(act) > 1500 {
+			act = act[:1500]
+		}
+		w.Inconclusive(fmt.Sprintf("case %s#%d exceeded %v without a deadlocked dump: %s; running goroutines: %s", c.Group, c.Index, to, desc, act))
 	}
 	// The worker cannot continue with leaked goroutines in an unknown state.
 	w.finish(false)
